@@ -359,6 +359,13 @@ func vfC01Run(dir string, c vfC01Case) (skipped bool, fail string, detail map[st
 	}
 	n := vfProd(c.L.dims)
 	data, nums, strs := c.T.gen(n, c.Pat)
+	if c.Pat == 1 {
+		// pattern 1 is written over an earlier complete write of the same dataset through the
+		// same handle: the values of the last write are what the file must hold
+		if earlier, _, _ := c.T.gen(n, 0); earlier != nil {
+			_ = ds.Write(earlier)
+		}
+	}
 	if err := ds.Write(data); err != nil {
 		detail["error"] = err.Error()
 		return true, "", detail
